@@ -76,3 +76,7 @@ def replay(path):
     verd.findings = []
     lsem.decide(PROP, [p], "replay", verd, {"states": 0, "transitions": 0}, {}, [], max_steps=80000)
     return verd.finish()
+
+
+def selftest():
+    return lsem.selftest(PROP, lsem.number([("shape", p, root, None) for s, (p, root) in gen_calls.gen_shapes(random.Random(5), 150)[0]]))
